@@ -11,6 +11,11 @@ package main
 // Model-independent oracles: shadow dictionary, VerifyMap, storage health, reachable = live slabs,
 // reopen from a fresh storage after commit, "emptied map leaves only the root slab".
 // Serves C02, C05, C09 (map side).
+//
+// Histories of this subcommand (not the ones other subcommands build on mtrRun) additionally commit
+// at random points (per-history density), run "dense stretches" (commit after every mutation, reopen
+// from the ledger bytes and compare after each), and sometimes continue on the reopened map (the
+// old wrapper and storage are dropped).  Commits and reopens are no trace steps.
 
 import (
 	"fmt"
@@ -48,9 +53,16 @@ type mtrRun struct {
 	maxInline uint64
 	maxKey    uint64
 	limit     uint64
+	defLimit  bool // the collision limit is not configured: the library's default is in force
 	mode      string
 	order     string
 	profile   int
+
+	durq     int // chance (percent) of a commit after a mutation; 0 = only the scheduled reopen checks
+	stretchP int // chance (per mille) that a mutation starts a dense stretch
+	dense    int // remaining mutations of the current dense stretch
+
+	nCommit, nReopen, nAdopt int
 
 	base *LogBase
 	st   *atree.PersistentSlabStorage
@@ -517,12 +529,10 @@ func (r *mtrRun) expectedOrder() []*mtrEntry {
 	return out
 }
 
-// reopen: after commit the map can be reopened by its root identifier in a brand-new storage and
-// is the same map: same content in the same order, same slab tree (every cached field)
-func (r *mtrRun) reopenCheck() {
-	r.rep.Event("reopen_check")
-	// FastCommit encodes in worker goroutines, where a panic cannot be recovered: encode every slab
-	// of the write set here first
+// commit writes the write set to the ledger.  FastCommit encodes in worker goroutines, where a
+// panic cannot be recovered: every slab of the write set is encoded here first.
+func (r *mtrRun) commit() bool {
+	r.nCommit++
 	err, pan := mpeCall(func() error {
 		deltas, _ := atree.VerifStorageKeys(r.st)
 		for id, live := range deltas {
@@ -540,19 +550,45 @@ func (r *mtrRun) reopenCheck() {
 	if err != nil {
 		r.viol("C09: a slab of the write set cannot be encoded", fmt.Sprintf("panic=%v %v", pan, err))
 		r.dead = true
-		return
+		return false
 	}
 	err, pan = mpeCall(func() error { return r.st.FastCommit(2) })
 	if err != nil {
 		r.viol("C02: commit failed", fmt.Sprintf("panic=%v %v", pan, err))
+		return false
+	}
+	return true
+}
+
+// reopen: after commit the map can be reopened by its root identifier in a brand-new storage and
+// is the same map: same content in the same order, same slab tree (every cached field)
+func (r *mtrRun) reopenCheck() { r.reopen(false) }
+
+// reopen with adopt: the history continues on the reopened map over the same ledger (the old
+// wrapper and storage are dropped: one wrapper per container).
+func (r *mtrRun) reopen(adopt bool) {
+	r.rep.Event("reopen_check")
+	r.nReopen++
+	if !r.commit() {
 		return
 	}
-	st2 := newStorage(r.base.Clone())
+	nv := len(r.rep.Violations)
+	var st2 *atree.PersistentSlabStorage
+	var rec2 *RecStorage
+	var sst atree.SlabStorage
+	if adopt {
+		st2 = newStorage(r.base)
+		rec2 = &RecStorage{In: st2}
+		sst = rec2
+	} else {
+		st2 = newStorage(r.base.Clone())
+		sst = st2
+	}
 	b2 := &mpeBuilder{table: r.b.table}
 	var m2 *atree.OrderedMap
-	err, pan = mpeCall(func() error {
+	err, pan := mpeCall(func() error {
 		var e error
-		m2, e = atree.NewMapWithRootID(st2, r.m.SlabID(), b2)
+		m2, e = atree.NewMapWithRootID(sst, r.m.SlabID(), b2)
 		return e
 	})
 	if err != nil {
@@ -569,7 +605,12 @@ func (r *mtrRun) reopenCheck() {
 		return m2.IterateReadOnly(func(k, v atree.Value) (bool, error) {
 			kid, _, _ := mpeIdent(k)
 			vid, vsz, _ := mpeIdent(v)
-			if j < len(want) && (kid != want[j].k.id || vid != want[j].vid || vsz != want[j].vsz) {
+			if j >= len(want) {
+				r.viol("C02: reopened map yields more pairs than the dictionary holds (a removed key is back)", fmt.Sprintf("extra key %d after %d pairs", kid, j))
+				j = len(want) + 1
+				return false, nil
+			}
+			if kid != want[j].k.id || vid != want[j].vid || vsz != want[j].vsz {
 				r.viol("C02: reopened map content differs", fmt.Sprintf("pos %d: (%d,%d,%d) want (%d,%d,%d)", j, kid, vid, vsz, want[j].k.id, want[j].vid, want[j].vsz))
 				j = len(want) + 1
 				return false, nil
@@ -599,6 +640,50 @@ func (r *mtrRun) reopenCheck() {
 	})
 	if err != nil {
 		r.viol("C05: VerifyMap failed on the reopened map", fmt.Sprintf("panic=%v %v", pan, err))
+	}
+	if len(r.rep.Violations) > nv {
+		// one report per history: no further random commits and comparisons
+		r.durq, r.stretchP, r.dense = 0, 0, 0
+		return
+	}
+	if adopt {
+		r.rep.Event("continue_on_reopened_map")
+		r.nAdopt++
+		rec2.Log = rec2.Log[:0]
+		r.st, r.rec, r.m, r.b = st2, rec2, m2, b2
+	}
+}
+
+// durable is called after every successful mutation of a maptree history (durq, stretchP are 0 for
+// the histories other subcommands build on mtrRun).
+func (r *mtrRun) durable() {
+	if r.dead || (r.durq == 0 && r.stretchP == 0) {
+		return
+	}
+	rng := r.rng
+	if r.dense > 0 {
+		r.dense--
+		if len(r.shadow) <= 250 || rng.Chance(20) {
+			r.reopen(rng.Chance(8))
+		} else if r.commit() {
+			r.rep.Event("commit")
+		}
+		return
+	}
+	if r.stretchP > 0 && rng.Intn(1000) < r.stretchP {
+		r.dense = 6 + rng.Intn(20)
+		r.rep.Event("dense_stretch")
+		if r.commit() { // the stretch starts from a clean cache
+			r.rep.Event("commit")
+		}
+		return
+	}
+	if rng.Chance(r.durq) {
+		if rng.Chance(50) && (len(r.shadow) <= 600 || rng.Chance(30)) {
+			r.reopen(rng.Chance(15))
+		} else if r.commit() {
+			r.rep.Event("commit")
+		}
 	}
 }
 
@@ -684,7 +769,7 @@ func (r *mtrRun) doSet(k *mtrKey) {
 		if present {
 			r.viol("C12: update of an existing key was refused by the collision limit", fmt.Sprintf("key %d limit %d", k.id, r.limit))
 		} else if !wantRefused {
-			r.viol("C12: insert refused although the collision limit is not reached", fmt.Sprintf("key %d fanout %d limit %d", k.id, n, r.limit))
+			r.viol("C12: insert refused although the collision limit is not reached", fmt.Sprintf("key %d fanout %d limit %d (not configured: %v)", k.id, n, r.limit, r.defLimit))
 		}
 		if len(r.rec.Log) != 0 || r.base.LastIndex(r.addr) != allocBefore {
 			r.viol("C12: refused insert left a trace (write log or allocator changed)", fmt.Sprint(r.rec.Log))
@@ -698,7 +783,7 @@ func (r *mtrRun) doSet(k *mtrKey) {
 		return
 	}
 	if wantRefused {
-		r.viol("C12: insert beyond the collision limit was accepted", fmt.Sprintf("key %d fanout %d limit %d", k.id, n, r.limit))
+		r.viol("C12: insert beyond the collision limit was accepted", fmt.Sprintf("key %d fanout %d limit %d (not configured: %v)", k.id, n, r.limit, r.defLimit))
 	}
 	var ans []uint64
 	if prev == nil {
@@ -736,6 +821,7 @@ func (r *mtrRun) doSet(k *mtrKey) {
 		r.viol("C02: Count differs from the dictionary", fmt.Sprintf("%d vs %d", r.m.Count(), len(r.shadow)))
 	}
 	r.afterMut(name, false)
+	r.durable()
 }
 
 func (r *mtrRun) doRemove(k *mtrKey) {
@@ -813,6 +899,7 @@ func (r *mtrRun) doRemove(k *mtrKey) {
 		r.rep.Event("emptied_by_removes")
 	}
 	r.afterMut(name, len(r.shadow) == 0)
+	r.durable()
 }
 
 func (r *mtrRun) doGet(k *mtrKey) {
@@ -1137,12 +1224,21 @@ func (r *mtrRun) randomOp(phase int, dir int) {
 
 func (r *mtrRun) setup(maxSteps int) bool {
 	rng := r.rng
+	lib := mpeReadLibDefaultLimit() // before anything configures the limit
 	r.T = []uint32{256, 300, 512, 1024}[rng.Pick(45, 20, 20, 15)]
 	r.limit = []uint64{0, 1, 2, 3, 255}[rng.Pick(5, 8, 8, 9, 70)]
 	set := atree.VerifSetThreshold(r.T)
 	r.maxInline, r.maxKey = uint64(set[4]), uint64(set[5])
-	atree.VerifSetMaxCollisionLimitPerDigest(uint32(r.limit))
+	r.defLimit = r.limit == mpeDocumentedDefaultLimit && rng.Bool()
+	if r.defLimit {
+		// not configured: exactly the value the library started with is in force
+		atree.VerifSetMaxCollisionLimitPerDigest(lib)
+	} else {
+		atree.VerifSetMaxCollisionLimitPerDigest(uint32(r.limit))
+	}
 	r.profile = rng.Pick(40, 35, 25)
+	r.durq = []int{0, 1, 5, 20}[rng.Pick(20, 30, 30, 20)]
+	r.stretchP = []int{0, 5, 15, 40}[rng.Pick(20, 30, 30, 20)]
 
 	// size class: small (always fully dumped), medium, large (height 3 at the small slab sizes)
 	var nk int
@@ -1308,13 +1404,17 @@ func (r *mtrRun) summarize() {
 	r.rep.Event("mode_" + r.mode)
 	r.rep.Event("order_" + r.order)
 	r.rep.Event(fmt.Sprintf("T_%d", r.T))
+	r.rep.Event(fmt.Sprintf("commit_density_%d_stretch_%d", r.durq, r.stretchP))
+	if r.defLimit {
+		r.rep.Event("limit_not_configured")
+	}
 	if r.dead {
 		r.rep.Event("hist_aborted")
 	}
 	if r.maxH >= 2 && r.sawSplit && r.sawMerge {
 		r.rep.Distinct(fp)
 	}
-	r.rep.Sample(fmt.Sprintf("history %s: %d steps, %d keys + %d probes, %s", r.tag, r.step, len(r.pool), len(r.probes), fp))
+	r.rep.Sample(fmt.Sprintf("history %s: %d steps, %d keys + %d probes, %d commits, %d reopen checks (%d continued on the reopened map), %s", r.tag, r.step, len(r.pool), len(r.probes), r.nCommit, r.nReopen, r.nAdopt, fp))
 }
 
 func cmdMapTree(a Args) {
@@ -1326,11 +1426,14 @@ func cmdMapTree(a Args) {
 		"12..1500 keys; T in {256,300,512,1024}; collision limit 255 or 0..3; per step the answer, the storeSlab/Remove log, the allocator, the root header " +
 		"and count are compared with the Coq model, the whole slab tree (every cached field) when <= 40 keys or every 16th step, together with the extracted " +
 		"invariant checker; oracles: shadow dictionary, refusal formula, canonical order, VerifyMap, CheckStorageHealth, reachable = live slabs, reopen from a " +
-		"fresh storage after commit (content, order, identical tree dump), emptied map leaves only the root slab. non-trivial = history that reached height >= 2 " +
+		"fresh storage after commit (content, order, identical tree dump), emptied map leaves only the root slab; per history a commit density (0/1/5/20% of the mutations) " +
+		"and dense stretches (6..25 mutations each committed and followed by a reopen from the ledger bytes compared with the shadow dictionary and the live tree; started after 0/0.5/1.5/4% of the mutations), " +
+		"8..15% of the reopens continue the history on the reopened map; collision limit 255 explicitly or not configured (library default). non-trivial = history that reached height >= 2 " +
 		"and both split and merged slabs (distinct by T, limit, digest mode, order, value profile, height and structural events)"
+	lib := mpeReadLibDefaultLimit()
 	defer func() {
 		atree.VerifSetThreshold(1024)
-		atree.VerifSetMaxCollisionLimitPerDigest(255)
+		atree.VerifSetMaxCollisionLimitPerDigest(lib)
 	}()
 	root := NewRng(a.Seed)
 	for h := 0; h < a.N; h++ {
@@ -1347,7 +1450,7 @@ func cmdMapTree(a Args) {
 					r.dead = true
 				}
 				atree.VerifSetThreshold(1024)
-				atree.VerifSetMaxCollisionLimitPerDigest(255)
+				atree.VerifSetMaxCollisionLimitPerDigest(lib)
 			}()
 			r.run(a.Steps)
 		}()
